@@ -25,8 +25,8 @@ EXPLANATION = (
     "than the platform index. The pandas model follows documented behaviour; pandas itself is trusted.")
 TECHNIQUE = "static analysis: abstract interpretation of export/import code over symbolic cell values with a model of the pandas operations in use; round trips decided exactly"
 
-ARRAYS_QUICK = [("a",), ("t", "a"), ("a", "t", "b"), ("s", "t"), ("n", "a"), ("b", "s", "a")]
-ARRAYS_THOROUGH = ARRAYS_QUICK + [("t",), ("b", "a"), ("a", "b", "t"), ("t", "b", "a", "n"), ("s",), ("n", "t", "s")]
+ARRAYS_QUICK = [("a",), ("t", "a"), ("a", "t", "b"), ("s", "t"), ("n", "a"), ("b", "s", "a"), ("m", "a")]
+ARRAYS_THOROUGH = ARRAYS_QUICK + [("t",), ("b", "a"), ("a", "b", "t"), ("t", "b", "a", "n"), ("s",), ("n", "t", "s"), ("m",), ("t", "m", "s")]
 
 
 def _worker(prog, rep, job):
@@ -37,6 +37,10 @@ def _worker(prog, rep, job):
         rule = "C11.to_df-lists-every-entry" if kind == "to_df" else "C11.roundtrip-identical"
         if len(letters) == 1 and inp.get("dim_to_columns") is not None and not ok and "to_df ended with raise" in msg:
             rule = "C11.wide-layout-of-1d-array"
+        if (not ok and "CSV" in str(inp.get("transformed")) and "from_df refuses" in msg and "contains items that are not in the dimension" in msg
+                and any(len({type(x) for x in DC.DIMS[l][1]}) > 1 for l in letters)):
+            # CSV text has one type per column: the numbers of a dimension mixing text and numbers come back as text and are refused (never misplaced)
+            rule = "C11.csv-text-of-mixed-type-items"
         rep.oblige(rule, ok, where=qual, what=str(inp), distinct=(rule, str(inp)),
                    sample={"rule": rule, "case": inp, "verdict": "ok" if ok else "VIOLATED"} if rep.obligations % 41 == 0 else None)
         rep.evaluations += 1
@@ -86,6 +90,7 @@ def run(prog, rep):
     rep.rule("C11.to_df-lists-every-entry", "to_df lists every entry once under its true labels; sparse: exactly the non-zero entries")
     rep.rule("C11.roundtrip-identical", "from_df(to_df(x) in any layout, permuted / re-headed / via CSV) is x")
     rep.rule("C11.wide-layout-of-1d-array", "to_df(dim_to_columns=d) works for a 1-dimensional array")
+    rep.rule("C11.csv-text-of-mixed-type-items", "the CSV round trip also holds for a dimension whose items mix text and numbers")
     for c, m in (("FlodymArray", "to_df"), ("FlodymArray", "from_df"), ("FlodymArray", "set_values_from_df")):
         prog.method(c, m)
     prog.cls("DataFrameToFlodymDataConverter")
@@ -115,6 +120,7 @@ def run(prog, rep):
 DF = "_df_to_flodym_array.py"
 FA = "flodym_arrays.py"
 MUTANTS = [
+    {"name": "D21-sparse-items-through-np.array", "path": FA, "find": "return pd.Index(dim.items)[ids]", "replace": "return np.array(dim.items)[ids]"},
     {"name": "D14-index-cast-int16", "path": DF, "find": ".T.astype(np.intp)", "replace": ".T.astype(np.int16)"},
     {"name": "D18-value-columns-by-setdiff1d", "path": DF, "find": "value_cols = [c for c in self.df.columns if c not in self.dim_columns]", "replace": "value_cols = np.setdiff1d(list(self.df.columns), self.dim_columns)"},
     {"name": "sort-columns-dropped", "path": DF, "find": "        self._sort_columns()\n", "replace": ""},
